@@ -139,11 +139,29 @@ def generic_instance(cls, **known):
     sig = inspect.signature(cls.__init__)
     kw = {}
     for p in list(sig.parameters.values())[1:]:
+        if p.kind in (p.VAR_POSITIONAL, p.VAR_KEYWORD):
+            continue
+        nm = p.name.lower()
         if p.name in known:
             kw[p.name] = known[p.name]
-        elif p.default is p.empty and p.kind in (p.POSITIONAL_ONLY, p.POSITIONAL_OR_KEYWORD, p.KEYWORD_ONLY):
-            raise NoRecipe('no recipe for %s (parameter %s)' % (cls.__name__, p.name))
-    return cls(**kw)
+        elif 'att' in nm or 'cid' in nm:
+            if 'att' not in known:
+                raise NoRecipe('no recipe for %s (parameter %s)' % (cls.__name__, p.name))
+            kw[p.name] = known['att']
+        elif nm in ('data', 'reference_data') and 'data' in known:
+            kw[p.name] = known['data']
+        elif 'roi' in nm:
+            kw[p.name] = make_roi(ROI_SPECS['RectangularROI'][0])
+        elif 'state' in nm and 'att' in known:
+            from glue.core.subset import RangeSubsetState
+            st = RangeSubsetState(2, 6, known['att'])
+            kw[p.name] = [st] if nm.endswith('s') else st
+        elif p.default is p.empty:
+            kw[p.name] = {'lo': 2, 'hi': 6, 'min': 2, 'max': 6, 'xmin': 1, 'xmax': 6, 'ymin': 2, 'ymax': 7}.get(nm, 3)    # any number
+    try:
+        return cls(**kw)
+    except Exception as e:
+        raise NoRecipe('no recipe for %s: %s: %s' % (cls.__name__, type(e).__name__, e))
 
 
 class NoRecipe(Exception):
@@ -233,12 +251,7 @@ def make_state(datasets, st):
         return ParsedSubsetState(ParsedCommand(st['cmd'], {k: att(datasets, (d, v)) for k, v in st['refs'].items()}))
     # a class found by introspection without a recipe
     cls = lookup(st['qualname'])
-    try:
-        return generic_instance(cls, att=att(datasets, (d, st.get('att', 'x'))))
-    except NoRecipe:
-        raise
-    except Exception as e:
-        raise NoRecipe('%s: %r' % (c, e))
+    return generic_instance(cls, att=att(datasets, (d, st.get('att', 'x'))), data=datasets[d])
 
 
 def apply_style(style, spec):
@@ -392,6 +405,8 @@ def realise(spec, scratch):
             dc.add_link(ComponentLink([a, a2], b, using=FUNCS['add2']))
         elif k == 'IdentityLink':
             dc.add_link(ComponentLink([a], b))
+        elif k == 'PartialResultLink':
+            dc.add_link(ComponentLink([a], b, using=LH.PartialResult(FUNCS['split2'], 1)))
         elif k == 'MultiLink':
             a2 = att(datasets, ln['a2'])
             dc.add_link(LH.MultiLink([a, a2], [b], forwards=FUNCS['add2'], backwards=FUNCS['split2']))
@@ -845,6 +860,7 @@ def catalogue(tables):
                   [{'kind': 'ComponentLink', 'a': [0, 'x'], 'b': [1, 'y'], 'f': 'plus_one'}],
                   [{'kind': 'ComponentLink2', 'a': [0, 'x'], 'a2': [0, 'y'], 'b': [1, 'x']}],
                   [{'kind': 'IdentityLink', 'a': [0, 'x'], 'b': [1, 'y']}],
+                  [{'kind': 'PartialResultLink', 'a': [0, 'x'], 'b': [1, 'y']}],
                   [{'kind': 'FunctionalLinkCollection', 'a': [0, 'x'], 'b': [1, 'y']}],
                   [{'kind': 'join_on_key', 'a': [0, 'z'], 'b': [1, 'z']}],
                   [{'kind': 'join_on_key', 'a': [0, 'c'], 'b': [1, 'c']}],
@@ -1156,13 +1172,16 @@ def stream_naming(R):
                 continue
             oid = objs.index(o)
             base = o.label if isinstance(o, Labelled) else type(o).__name__
-            if gs is None:
-                gs = GlueSerializer(o)
-                nm = gs.id(o)
-                ops.append((oid, [1, chars(base)]))
-            else:
-                nm = gs.id(o)
-                ops.append((oid, [0, chars(base)]))
+            try:
+                if gs is None:
+                    gs = GlueSerializer(o)
+                    nm = gs.id(o)
+                    ops.append((oid, [1, chars(base)]))
+                else:
+                    ops.append((oid, [0, chars(base)]))
+                    nm = gs.id(o)
+            except AssertionError:
+                continue        # a loud failure; the model leaves the registry unchanged as well
             if oid in names_seen and names_seen[oid] != nm and bad is None:
                 bad = 'object %d renamed from %r to %r' % (oid, names_seen[oid], nm)
             names_seen[oid] = nm
@@ -1314,6 +1333,12 @@ def stream_graph(R):
         rec = json.loads(text)
         order = [nodes.index(ob) for ob in gs._objs.values()]          # registration order, as node numbers
         name_idx = {nm: k for k, nm in enumerate(gs._objs.keys())}
+        lost = [nm for nm in gs._objs if nm not in rec]
+        if lost:
+            if nfail < 10:
+                nfail += 1
+                R.fail('oracle', {'stream': 'graph', 'graph': g}, {'why': 'objects were named but no record was written for them: %s' % lost})
+            continue
 
         def conv(f):
             if isinstance(f, list):
@@ -1337,8 +1362,15 @@ def stream_graph(R):
         except GlueSerializeError as e:
             ok = False
             back = None
-            if 'ircular' not in str(e):
-                R.fail('correspondence', {'stream': 'graph', 'graph': g}, {'why': 'unexpected load error %s' % e})
+            if 'ircular' not in str(e) and nfail < 10:
+                nfail += 1
+                R.fail('oracle', {'stream': 'graph', 'graph': g}, {'why': 'a saved object graph fails at load time: %s' % e})
+        except Exception as e:
+            ok = False
+            back = None
+            if nfail < 10:
+                nfail += 1
+                R.fail('oracle', {'stream': 'graph', 'graph': g}, {'why': 'a saved object graph fails at load time: %s: %s' % (type(e).__name__, str(e)[:200])})
         impl_load[ci] = ok
         op_lines.append(enc((3, [(i, [c] + [enc_gfield(f) for f in fs]) for i, (c, fs) in enumerate(recs)])))
         op_idx.append(ci)
@@ -1419,12 +1451,15 @@ def run(R):
               'a session is non-trivial when it restores with a subset mask that is neither empty nor full or an attribute reachable across datasets; '
               'distinct = distinct canonical specs')
     T = gen_tables.collect()
+    flags = {}
     if R.model_available:
-        stream_naming(R)
-        stream_graph(R)
+        for fn in (stream_naming, stream_graph):
+            try:
+                fn(R)
+            except Exception as e:        # keep going: the session streams may still find the failing input
+                import traceback
+                R.fail('correspondence', {'stream': fn.__name__}, {'why': 'stream crashed', 'trace': traceback.format_exc()[-1500:]})
         flags = stream_tables(R, T)
-    else:
-        flags = {}
     nfail = [0]
     cat = catalogue(T)
     statuses = {}
